@@ -89,12 +89,13 @@ func init() {
 	})
 	register(&Property{
 		ID: "C14",
-		Explanation: "Decides both halves of the protocol: reader side (list-before-index) — in every function of the program that calls LoadIndex, each snapshot lookup (FindAll, FindLatest, FindSnapshot, ForAllSnapshots, or a wrapper that forwards its lister parameter to one of them; lookups inside function literals count from the literal's creation) either cannot execute after LoadIndex or takes its snapshot list from restic.MemorizeList(…, SnapshotFile) evaluated before LoadIndex; Checker.snapshots is only ever the memorized list and Checker.LoadIndex is preceded by a successful LoadSnapshots (frozen exception: prune, which holds the exclusive lock); writer side — flush-order, pack-before-index and snapshot-after-upload of C11. So a listed snapshot was completely indexed before the index was read. Not decided: backends with listing delay beyond what the protocol assumes.",
+		Explanation: "Decides both halves of the protocol: reader side (list-before-index) — in every function of the program that calls LoadIndex, each snapshot lookup (FindAll, FindLatest, FindSnapshot, ForAllSnapshots, or a wrapper that forwards its lister parameter to one of them; lookups inside function literals count from the literal's creation) either cannot execute after LoadIndex or takes its snapshot list from restic.MemorizeList(…, SnapshotFile) evaluated before LoadIndex; Checker.snapshots is only ever the memorized list and Checker.LoadIndex is preceded by a successful LoadSnapshots (frozen exception: prune, which holds the exclusive lock); (mount-reloads-index) the mount, which lists snapshots repeatedly, publishes a new set (makeDirs, the recorded hash) only on paths where LoadIndex returned nil after that listing — the index loaded at mount time may predate a snapshot listed now (added after a seeded change that skipped the reload on the first update); writer side — flush-order, pack-before-index and snapshot-after-upload of C11. So a listed snapshot was completely indexed before the index was read. Not decided: backends with listing delay beyond what the protocol assumes.",
 		Assumptions: commonAssumptions,
 		Technique:   "static analysis: per-function ordering of LoadIndex vs. snapshot lookups with value-origin of the lister argument and wrapper summaries (go/ssa)",
 		AllConfigs:  true,
 		Run: func(c *eng.Ctx) {
 			ruleListBeforeIndex(c)
+			ruleMountReloadsIndex(c)
 			ruleFlushOrder(c)
 			rulePackBeforeIndex(c)
 			ruleUploadErrorsPropagate(c)
@@ -105,6 +106,8 @@ func init() {
 			ruleStepsBeforeEffects(c)
 		},
 		Controls: []Control{
+			{Name: "mount-publishes-when-reload-fails", File: "internal/fuse/snapshots_dirstruct.go",
+				Old: "	err = d.root.repo.LoadIndex(ctx, restic.NoopTerminalCounterFactory)\n	if err != nil {\n		return err\n	}\n\n	d.lastCheck = time.Now()\n	d.hash = hash", New: "	err = d.root.repo.LoadIndex(ctx, restic.NoopTerminalCounterFactory)\n	if err != nil {\n		debug.Log(\"reload: %v\", err)\n	}\n\n	d.lastCheck = time.Now()\n	d.hash = hash", Rule: "mount-reloads-index"},
 			{Name: "stats-loads-index-before-listing", File: "cmd/restic/cmd_stats.go",
 				Old: "	snapshotLister, err := restic.MemorizeList(ctx, repo, restic.SnapshotFile)\n	if err != nil {\n		return err\n	}\n", New: "	if err := repo.LoadIndex(ctx, printer); err != nil {\n		return err\n	}\n	snapshotLister, err := restic.MemorizeList(ctx, repo, restic.SnapshotFile)\n	if err != nil {\n		return err\n	}\n", Rule: "list-before-index"},
 			{Name: "find-uses-live-repo-as-lister", File: "cmd/restic/cmd_find.go",
